@@ -41,7 +41,14 @@ def geB (a b : Proposal) : Bool := decide (¬ a.lt b)
 
 /-- `sorted(bucket, reverse=True)`.  Python's sort is stable and `reverse=True` keeps stability;
 for pairwise distinct keys (a `set` of proposals) the result is the unique descending order. -/
-def sortDesc (ps : List Proposal) : List Proposal := ps.mergeSort geB
+def insertDesc (p : Proposal) : List Proposal → List Proposal
+  | [] => [p]
+  | q :: qs => if geB p q then p :: q :: qs else q :: insertDesc p qs
+
+/-- Stable insertion sort (structural recursion, so the kernel can evaluate it). -/
+def sortDesc : List Proposal → List Proposal
+  | [] => []
+  | p :: ps => insertDesc p (sortDesc ps)
 
 /-- The `exclusion_bounds` local of `_calc_target_power` / `get_status`: the system exclusion
 bounds, unless they are absent or both ends are zero. -/
@@ -153,20 +160,21 @@ deriving Repr, DecidableEq
 
 def Mgr.init : Mgr := { bucket := none, last := none }
 
+/-- The bucket after the optional proposal has been added. -/
+def Mgr.newBucket (m : Mgr) : Option Proposal → Option (List Proposal)
+  | some p => some (insertProposal (m.bucket.getD []) p)
+  | none => m.bucket
+
 /-- `calculate_target_power(component_ids, proposal, system_bounds, must_return_power)`. -/
 def Mgr.calc (m : Mgr) (p : Option Proposal) (sb : SystemBounds) (must : Bool) :
     Mgr × Option Rat :=
   if m.bucket.isNone ∧ sb.incl.isNone ∧ sb.excl.isNone then (m, none)
   else
-    let bucket : Option (List Proposal) :=
-      match p with
-      | some p => some (insertProposal (m.bucket.getD []) p)
-      | none => m.bucket
-    match bucket with
-    | none => ({ m with bucket := bucket }, none)
+    match m.newBucket p with
+    | none => (m, none)
     | some b =>
-      let t := calcTarget sb b
-      if must ∨ m.last ≠ some t then ({ bucket := some b, last := some t }, some t)
+      if must ∨ m.last ≠ some (calcTarget sb b) then
+        ({ bucket := some b, last := some (calcTarget sb b) }, some (calcTarget sb b))
       else ({ m with bucket := some b }, none)
 
 def Mgr.drop (m : Mgr) (maxAge now : Rat) : Mgr :=
